@@ -256,8 +256,18 @@ def r3(ctx, F, sfx):
         planes = I.Sym(nf.sym_atom('planes'), '&[voronoi::half_space::HalfSpace]')
         g = I.sym_vec3('G')
         dimv = I.St('voronoi::Dimensionality', dim, {})
-        v, _ = ip.call_body(fd, [RF.sym('i'), RF.sym('j'), RF.sym('k'), planes, g, dimv])
+        nf.CANCEL_LOG = []
+        try:
+            v, _ = ip.call_body(fd, [RF.sym('i'), RF.sym('j'), RF.sym('k'), planes, g, dimv])
+            canc = nf.CANCEL_LOG
+        finally:
+            nf.CANCEL_LOG = None
         ctx.evaluations += ip.evaluations
+        # the radius is measured directly: no difference of two quantities that share whole monomials (|d|^2 - d_z^2 for d_x^2 + d_y^2 is the same
+        # number over the reals — which is all the formula check below sees — but in floating point the small in-plane part is rounded to the
+        # spacing of the large inactive one: for cells much smaller than the unit inactive extent the radius, and with it the safety radius, is 0)
+        ctx.check('C16.R3', 'radius2-without-cancellation-%s%s' % (dim, sfx), not canc, ['%s - %s' % (repr(a_)[:50], repr(b_)[:50]) for a_, b_, _n in canc[:2]] or 'no subtraction of overlapping sums',
+                  'the squared radius is a sum of squares, not a difference of overlapping sums', where(fd), key_extra='cancellation')
         r2v = as_rf(I.get_field(v, 'radius2', 'f64'))
         loc = c3(I.get_field(v, 'loc'))
         G = c3(g)
